@@ -111,6 +111,59 @@ theorem updateLiveness_same (s : CState) (f : String → Bool) (now : Nat)
         exact h3
       · exact h4.insert _ _
 
+/-- the events of one `livenessStep` are about the node `p.2`, which is neither local nor left -/
+theorem livenessStep_events (lid : String) (f : String → Bool) (now : Nat)
+    (acc : CState × List Event) (p : String × NodeSt) :
+    ∃ new, (livenessStep lid f now acc p).2 = acc.2 ++ new ∧
+      ∀ e ∈ new, (e = .unreachable p.2.id ∨ e = .reachable p.2.id) ∧ p.2.left = false ∧ p.2.id ≠ lid := by
+  unfold livenessStep
+  simp only
+  by_cases hloc : (p.2.id = lid || p.2.left) = true
+  · exact ⟨[], by simp [hloc], by simp⟩
+  · have hne : p.2.id ≠ lid := by intro e; simp [e] at hloc
+    have hl : p.2.left = false := by
+      cases h : p.2.left with
+      | false => rfl
+      | true => simp [h] at hloc
+    simp only [hloc, Bool.false_eq_true, if_false]
+    by_cases hf : f p.2.id = true
+    · simp only [hf, if_true]
+      by_cases hu : p.2.unreachable = true
+      · exact ⟨[], by simp [hu], by simp⟩
+      · simp only [hu, Bool.false_eq_true, if_false]
+        exact ⟨[.unreachable p.2.id], rfl, by simp [hl, hne]⟩
+    · simp only [hf, Bool.false_eq_true, if_false]
+      by_cases hu : p.2.unreachable = true
+      · simp only [hu, if_true]
+        exact ⟨[.reachable p.2.id], rfl, by simp [hl, hne]⟩
+      · exact ⟨[], by simp [hu], by simp⟩
+
+/-- `UpdateLiveness` only ever announces reachable/unreachable for nodes that are remembered,
+not local and have **not left** -/
+theorem updateLiveness_events (s : CState) (f : String → Bool) (now : Nat) :
+    ∀ e ∈ (updateLiveness s f now).2, ∃ p ∈ s.nodes,
+      (e = .unreachable p.2.id ∨ e = .reachable p.2.id) ∧ p.2.left = false ∧ p.2.id ≠ s.localId := by
+  unfold updateLiveness
+  suffices hgen : ∀ (l : List (String × NodeSt)) (acc : CState × List Event),
+      (∀ q ∈ l, q ∈ s.nodes) →
+      (∀ e ∈ acc.2, ∃ p ∈ s.nodes, (e = .unreachable p.2.id ∨ e = .reachable p.2.id) ∧ p.2.left = false ∧ p.2.id ≠ s.localId) →
+      ∀ e ∈ (l.foldl (livenessStep s.localId f now) acc).2, ∃ p ∈ s.nodes,
+        (e = .unreachable p.2.id ∨ e = .reachable p.2.id) ∧ p.2.left = false ∧ p.2.id ≠ s.localId by
+    exact hgen s.nodes (s, []) (fun q hq => hq) (by simp)
+  intro l
+  induction l with
+  | nil => intro acc _ h; exact h
+  | cons q l ih =>
+    intro acc hl h
+    simp only [List.foldl_cons]
+    apply ih _ (fun x hx => hl x (List.mem_cons_of_mem _ hx))
+    obtain ⟨new, hnew, hall⟩ := livenessStep_events s.localId f now acc q
+    intro e he
+    rw [hnew] at he
+    rcases List.mem_append.mp he with h1 | h1
+    · exact h e h1
+    · exact ⟨q, hl q (List.mem_cons_self ..), hall e h1⟩
+
 theorem ViewInv.of_same {H : List Entry} {O V V' : NodeSt} (h : ViewInv H O V) (e : NodeSame V V') :
     ViewInv H O V' := by
   obtain ⟨_, _, hv, he⟩ := e
